@@ -21,6 +21,7 @@ package recovery
 //@   loop 1 invariant [replay-position] trBroken[tr] || (0 <= block && block < pipes.RecordSize && 512*(pipes.RecordSize*record+block) == drivePos[reader.Drive] + trSkip[tr] && trSrc(tr) == reader.Drive && trUnread[tr] == 0)
 //@   at call indexHeader#1 assert [every-record-indexed-at-its-own-position] 512*(pipes.RecordSize*arg_record+arg_block) == hdrStart(arg_hdr) && 0 <= arg_block && arg_block < pipes.RecordSize
 //@   property C06
+//@   loop 1 invariant [headers-are-read-at-record-boundaries-only] trBroken[tr] || (0 <= block && block < pipes.RecordSize && 512*(pipes.RecordSize*record+block) == drivePos[reader.Drive] + trSkip[tr] && trSrc(tr) == reader.Drive && trUnread[tr] == 0)
 //@   at call Seek#3 assert [resync-forward] arg_offset >= curr && arg_offset - curr < 512 && arg_offset % 512 == 0 && arg_whence == 0
 //@   ensures [a-failed-replay-keeps-what-it-indexed] purges <= old(purges) + 1
 //@   at call indexHeader assert [the-index-is-emptied-before-the-replay-only] purges <= old(purges) + 1
